@@ -510,6 +510,13 @@ class Effects:
         from .discard import ok_on_success
         return not ok_on_success(self.prog, fn, c)
 
+    def _result_discarded(self, fn, c):
+        from .discard import result_fates, verdict
+        try:
+            return verdict(result_fates(self.prog, fn, c)) == 'discarded'
+        except Exception:
+            return False
+
     # closures handed to Option / Result combinators: which payload their first parameter receives
     COMB_OK = ('::map', '::and_then', '::is_some_and', '::is_ok_and', '::inspect', '::filter', '::map_or', '::map_or_else', '::is_none_or')
     COMB_ERR = ('::map_err', '::or_else', '::unwrap_or_else', '::inspect_err', '::is_err_and')
@@ -553,7 +560,13 @@ class Effects:
         callees = self.prog.callee_fns(c)
         for g in callees:
             m = self.call_mapping(fn, c, g, mapping)
-            sub = self.expand(g, mode, None, m, chain + (Link(c, mapping),), stack)
+            sites = None
+            if mode == 'must' and (g.ret or '').startswith(('std::result::Result<', 'std::option::Option<')) and self._result_discarded(fn, c):
+                # `let _ = helper();` / `helper().ok();`: the caller goes on whether the helper succeeded or not, so only
+                # what the helper does on *every* way out (not just on its success paths: a `?` inside it skips the
+                # rest) is certain for the caller
+                sites = list(g.return_blocks())
+            sub = self.expand(g, mode, sites, m, chain + (Link(c, mapping),), stack)
             if forall is not None:
                 for e in sub:
                     if e.forall is None:
